@@ -1,2 +1,168 @@
+(** C17 — ForceBackup re-baselines the path it names.
+
+    "After ForceBackup(p) succeeds for a non-directory path p, a later
+    Rollback leaves p exactly as it was at the moment of the ForceBackup call
+    (content, type, mode, owner - or absent, if it was absent then) rather
+    than as it was when the transaction began, while every other path is
+    rolled back as usual."
+
+    The theorems are about the model's BackupFS ([b_force_backup], [step],
+    [b_rollback] of Backup/BackupFS.v and Backup/History.v) over *any* two
+    filesystems [base], [backup] satisfying the laws of Spec/Laws.v (the
+    base also Spec/Laws2.v, for the covered operations between ForceBackup
+    and Rollback) with respect to abstract views [Vb], [Vk].  The laws are
+    hypotheses of the theorems, not axioms.  Proofs: Proofs/BackupForce.v.
+
+    What is proved.
+    - [C17_force_backup_rebaselines]: in any state [w] satisfying the
+      transaction invariant [Inv Vb Vk B0 w] ([B0]: the base view when the
+      transaction began), for a resolved name [p] (no symlink among its
+      parents, not the root) under the side conditions below, ForceBackup(p)
+      does not halt, does not change the base view and ends - whether it
+      returns nil or an error - in a state satisfying the invariant for the
+      new baseline [B0' = rebase B0 p (Vb w !! p)]: [B0] with the entry at [p]
+      replaced by the one found at the moment of the call (deleted if there
+      is none).  [B0'] is again well formed, [links_ok], [all_small].
+      Bookkeeping of other paths is kept; on nil, [p] is tracked with the
+      info of its current entry (or as "did not exist") and its ancestors
+      are tracked; nil is returned whenever the existing proper ancestors of
+      [p] are directories.  (So a *failed* ForceBackup re-baselines [p] too:
+      the old copy is dropped before the new one is attempted.)
+    - [C17_rollback_after_force_backup] (the property): after ForceBackup(p)
+      (whatever it returned), any run of covered operations ([good_run]) and
+      Rollback: Rollback returns nil, [p] is as it was at the moment of the
+      ForceBackup call, every other path (but the root's own entry) is as in
+      [B0], the backup and the bookkeeping are empty.  Equalities are
+      [sonode_eqv]: everything for regular files (content, mode, owner,
+      mtime), everything but the timestamp for directories and symlinks.
+    - [C17_whole_transaction]: the same starting from an [initial] state and
+      a [good_run] up to the ForceBackup call.
+    - [C17_untracked_is_try_backup]: on an untracked path (of any type)
+      ForceBackup is tryBackup; the invariant is kept for the same [B0].
+
+    Side conditions (all on the state at the moment of the call):
+    - [entry_ok p (Vb w !! p)]: the current entry is nothing, a regular file
+      within the budget of the copy loop, or a symlink whose target is in the
+      normal form both filesystems report and accepted by both (what
+      [links_ok] / [all_small] ask of the initial tree; K2/K3) - not a
+      directory;
+    - [orig_not_dir_cond w p]: if [p] is tracked as existing, the original was
+      not a directory (else the backup copy is a directory and
+      tryRemoveBackup walks it);
+    - [parents_original Vb B0 w p]: if [p] is tracked as "did not exist" and
+      exists now, its parent directories existed when the transaction began.
+      Necessary: [C17_needs_parents_original] below;
+    - [backup_parents_resolved Vb Vk w p]: if [p] is tracked as "did not
+      exist" and does not exist now, no proper ancestor of [p] is a symlink in
+      the *backup* view (follows from the invariant when the parents of [p]
+      are directories in the base: [backup_parents_resolved_direct]).
+      Necessary: [C17_refuted_symlinked_backup_parent] below.
+
+    Not proved: ForceBackup of a path that is or was a directory (the Walk
+    branch of tryRemoveBackup); names that still have to be resolved through
+    symlinks ([realPath] beyond the identity on resolved names, C16); runs
+    with crash points or injected faults ([Inv] includes [quiet]); type
+    changes at tracked paths (D13: [kind_stable] in [good_run]). *)
+From stdpp Require Import gmap.
+From BFS Require Import Spec.CopySpecs.
 From BFS Require Import Backup.History.
-Example placeholder_C17 : True. Proof. exact I. Qed.
+From BFS Require Import Proofs.BackupCopy Proofs.BackupTry Proofs.BackupRollback Proofs.BackupC01
+                        Proofs.BackupForce.
+
+(** ForceBackup keeps the invariant, for the new baseline *)
+Theorem C17_force_backup_rebaselines :
+  forall base backup Vb Vk tnb tnk accb acck rhb rhk whb whk B0,
+  force_backup_stmt base backup Vb Vk tnb tnk accb acck rhb rhk whb whk B0.
+Proof. exact force_backup_spec. Qed.
+Print Assumptions C17_force_backup_rebaselines.
+
+(** the property *)
+Theorem C17_rollback_after_force_backup :
+  forall (base backup : fsapi) (Vb Vk : world -> store) (tnb tnk : str -> str)
+         (accb acck : str -> str -> Prop) (rhb rhk whb whk : fhandle -> str -> nat -> Prop)
+         (B0 : store),
+  base_laws base Vb Vk tnb accb rhb whb -> base_laws2 base Vb Vk tnb accb rhb whb ->
+  backup_laws backup Vb Vk tnk acck rhk whk ->
+  links_ok tnb tnk accb acck B0 -> all_small B0 -> swf B0 ->
+  forall (w : world) (p : str),
+  Inv Vb Vk B0 w -> snolinkpar (Vb w) p -> p <> s_root ->
+  entry_ok tnb tnk accb acck p (Vb w !! p) -> orig_not_dir_cond w p ->
+  parents_original Vb B0 w p -> backup_parents_resolved Vb Vk w p ->
+  forall (r : mres unit) (w1 : world) (ops : list op) (w2 : world),
+    b_force_backup base backup p w = (r, w1) -> good_run base backup Vb w1 ops w2 ->
+    exists w3, b_rollback base backup w2 = (MOk tt, w3) /\
+               (* p: as at the moment of the ForceBackup call *)
+               sonode_eqv (Vb w3 !! p) (Vb w !! p) /\
+               (* every other path: as when the transaction began *)
+               (forall q, q <> p -> q <> s_root -> sonode_eqv (Vb w3 !! q) (B0 !! q)) /\
+               (forall q, q <> s_root -> Vk w3 !! q = None) /\ w_infos w3 = ∅.
+Proof. exact c17_spec. Qed.
+Print Assumptions C17_rollback_after_force_backup.
+
+(** a whole transaction: initial state, covered operations, ForceBackup(p),
+    covered operations, Rollback *)
+Theorem C17_whole_transaction :
+  forall base backup Vb Vk tnb tnk accb acck rhb rhk whb whk B0,
+  c17_initial_stmt base backup Vb Vk tnb tnk accb acck rhb rhk whb whk B0.
+Proof. exact c17_initial_spec. Qed.
+Print Assumptions C17_whole_transaction.
+
+(** ForceBackup of an untracked path is tryBackup *)
+Theorem C17_untracked_is_try_backup :
+  forall base backup Vb Vk tnb tnk accb acck rhb rhk whb whk B0,
+  force_backup_untracked_stmt base backup Vb Vk tnb tnk accb acck rhb rhk whb whk B0.
+Proof. exact force_backup_untracked_spec. Qed.
+Print Assumptions C17_untracked_is_try_backup.
+
+(** * The side conditions are necessary: witnesses in the concrete model
+    (documented layering: base hides /bk, backup is PrefixFS(/bk)) *)
+Open Scope N_scope.
+Definition c17_cfg : config := mkConfig None [[47;98;107]] [47;98;107].
+Definition c17_w0 : world := init_dir (init_dir init_world [47] 493 0 0 1) [47;98;107] 493 0 0 2.
+
+(** [backup_parents_resolved] dropped: the unrestricted property is false of
+    the faithful model.  Tree { /bk, /x/, /x/b = "hi" mode 0644, /l -> /x }.
+    Chmod(/x/b, 0600) backs /x/b up; Remove(/l) backs the link up (the
+    backup now holds /l -> /x); Create(/l/b) fails with ENOENT but records
+    /l/b as "did not exist".  ForceBackup(/l/b) returns nil: tryRemoveBackup
+    Lstats /l/b *on the backup*, which follows the backed-up link to the
+    backup copy of /x/b, finds a regular file and removes it - the backup
+    copy of another path.  Rollback returns nil and /x/b keeps mode 0600
+    (without the ForceBackup it gets 0644 back: second conjunct). *)
+Definition c17_w1 : world :=
+  init_link (init_file (init_dir c17_w0 [47;120] 493 0 0 3) [47;120;47;98] 420 0 0 4 [104;105])
+            [47;108] 0 0 6 [47;120].
+Definition c17_ops1 : list op :=
+  [OChmod [47;120;47;98] 384; ORemove [47;108]; OCreate [47;108;47;98] [120]].
+Example C17_refuted_symlinked_backup_parent :
+  (let '(rs, w') := run_history c17_cfg (c17_ops1 ++ [OForceBackup [47;108;47;98]; ORollback]) c17_w1 in
+   nth 3 rs MHalt = MOk ObUnit /\ nth 4 rs MHalt = MOk ObUnit /\
+   st_fs (w_st w') !! [[120]; [98]] <> st_fs (w_st c17_w1) !! [[120]; [98]]) /\
+  (let '(rs, w') := run_history c17_cfg (c17_ops1 ++ [ORollback]) c17_w1 in
+   nth 3 rs MHalt = MOk ObUnit /\
+   st_fs (w_st w') !! [[120]; [98]] = st_fs (w_st c17_w1) !! [[120]; [98]]).
+Proof.
+  vm_compute. split.
+  - split; [reflexivity | split; [reflexivity | intro H; inversion H]].
+  - split; reflexivity.
+Qed.
+
+(** [parents_original] dropped: Mkdir(/a); Create(/a/f).  ForceBackup(/a/f)
+    drops the entry "did not exist" of /a/f, then cannot create the copy (the
+    new directory /a is not in the backup) and fails, leaving /a/f untracked.
+    The premise of the property ("succeeds") is false here, but the failed
+    call breaks the transaction: Rollback fails to remove /a (not empty) and
+    /a, /a/f stay.  (Without the ForceBackup both are removed.) *)
+Definition c17_ops2 : list op := [OMkdir [47;97] 493; OCreate [47;97;47;102] [120]].
+Example C17_needs_parents_original :
+  (let '(rs, w') := run_history c17_cfg (c17_ops2 ++ [OForceBackup [47;97;47;102]; ORollback]) c17_w0 in
+   nth 2 rs MHalt = MErr EOther /\ nth 3 rs MHalt = MErr ERollback /\
+   st_fs (w_st w') !! [[97]; [102]] <> None) /\
+  (let '(rs, w') := run_history c17_cfg (c17_ops2 ++ [ORollback]) c17_w0 in
+   nth 2 rs MHalt = MOk ObUnit /\
+   st_fs (w_st w') !! [[97]] = None /\ st_fs (w_st w') !! [[97]; [102]] = None).
+Proof.
+  vm_compute. split.
+  - split; [reflexivity | split; [reflexivity | intro H; inversion H]].
+  - split; [reflexivity | split; reflexivity].
+Qed.
